@@ -137,6 +137,58 @@ def gv_parallel(cmd, requests, extra=(), shards=None, timeout=3600):
     return out
 
 
+def gv_robust(cmd, requests, extra=(), shards=None, timeout=3600, mem_gb=3):
+    """Like gv_parallel, but the death of a harness process is data: each process runs under an address-space limit; when
+    one dies (allocation failure -> abort, stack overflow, kill), the request it was working on gets the verdict "abort"
+    and the remaining requests of the shard continue in a fresh process."""
+    build_harness()
+    import resource, threading
+    shards = shards or min(NCPU, max(1, len(requests) // 50))
+    chunks = [requests[i::shards] for i in range(shards)]
+    results = [None] * shards
+
+    def limit():
+        resource.setrlimit(resource.RLIMIT_AS, (mem_gb << 30, mem_gb << 30))
+
+    def feed(i):
+        todo = list(chunks[i])
+        answers = []
+        while todo:
+            p = subprocess.Popen([GV, cmd, *extra], stdin=subprocess.PIPE, stdout=subprocess.PIPE, stderr=subprocess.PIPE, text=True, preexec_fn=limit)
+            try:
+                o, e = p.communicate("\n".join(json.dumps(r) for r in todo) + "\n", timeout=timeout)
+            except subprocess.TimeoutExpired:
+                p.kill()
+                o, e = p.communicate()
+            lines = []
+            for l in o.splitlines():
+                try:
+                    lines.append(json.loads(l))
+                except ValueError:
+                    break          # a line cut off by the death of the process
+            answers += lines
+            if len(lines) >= len(todo) and p.returncode == 0:
+                break
+            if len(lines) >= len(todo):
+                break
+            culprit = todo[len(lines)]
+            answers.append({"id": culprit.get("id"), "verdict": "abort", "msg": f"harness process died (exit status {p.returncode}) while working on this request: " + e[-300:],
+                            "at": "process death (status %s)" % p.returncode})
+            todo = todo[len(lines) + 1:]
+        results[i] = answers
+
+    ths = [threading.Thread(target=feed, args=(i,)) for i in range(shards)]
+    [t.start() for t in ths]
+    [t.join() for t in ths]
+    out = [None] * len(requests)
+    for i, answers in enumerate(results):
+        if answers is None or len(answers) != len(chunks[i]):
+            raise ToolError(f"gv {cmd} shard {i}: answers {0 if answers is None else len(answers)} != requests {len(chunks[i])}")
+        for k, a in enumerate(answers):
+            out[i + k * shards] = a
+    return out
+
+
 # ----------------------------------------------------------------------------------------- TLC
 class TlcResult:
     def __init__(self):
